@@ -24,6 +24,17 @@ func (g *Gen) randomMapping() (mparams, bool) {
 	}
 	pb := m.ToProto()
 	p := mparams{kind: kind, gamma: pb.Gamma, off: pb.IndexOffset, fromAlpha: true, alpha: alpha}
+	if r.Bool(6) {
+		// the int32 limit of the index, not the float64 range, bounds the indexable values: a fine mapping
+		// with a huge offset
+		a := 1e-6 * (1 + 2*r.Float01())
+		if m2, err := mappingFromAlpha(kind, a); err == nil {
+			p.gamma = m2.ToProto().Gamma
+			p.off = []float64{2e9, -2e9, 1.9e9 + 0.5, -1.9e9 - 0.5}[r.Intn(4)]
+			p.fromAlpha = false
+			return p, true
+		}
+	}
 	if r.Bool(15) {
 		// a whole number n of bins per octave (gamma = 2^(1/n)): the bin edges of the interpolated mappings
 		// fall on the powers of two, where the reconstruction of a float from exponent and significand
